@@ -90,11 +90,68 @@ Proof.
   - destruct Hv as [Hne _]. destruct s as [|c s]; [contradiction|]. cbn [ibind]. rewrite IH. reflexivity.
 Qed.
 
+(** no piece of a well-formed value prints the quote chosen for it *)
+Lemma name_ok_no_quote (n : str) q : q = 34 \/ q = 39 -> name_ok n -> existsb (N.eqb q) n = false.
+Proof.
+  intros Hq. unfold name_ok. induction n as [|c n IH]; cbn [forallb existsb]; [reflexivity|].
+  intros H. apply andb_prop in H. destruct H as [Hc Hn]. rewrite (IH Hn), orb_false_r.
+  destruct (N.eqb_spec q c) as [<-|]; [|reflexivity]. destruct Hq as [-> | ->]; vm_compute in Hc; discriminate.
+Qed.
+
+Lemma digits_no_quote (p : cpred) (n : str) q : eval p q = false -> forallb (eval p) n = true -> existsb (N.eqb q) n = false.
+Proof.
+  intros Hq. induction n as [|c n IH]; cbn [forallb existsb]; [reflexivity|].
+  intros H. apply andb_prop in H. destruct H as [Hc Hn]. rewrite (IH Hn), orb_false_r.
+  destruct (N.eqb_spec q c) as [<-|]; [congruence|reflexivity].
+Qed.
+
+Lemma existsb_app_false {A} (f : A -> bool) a b : existsb f a = false -> existsb f b = false -> existsb f (a ++ b) = false.
+Proof. intros Ha Hb. rewrite existsb_app, Ha, Hb. reflexivity. Qed.
+
+Lemma except_no_char (ex : list N) (s : str) q : In q ex -> forallb (eval (is_char_except ex)) s = true -> existsb (N.eqb q) s = false.
+Proof.
+  intros Hin. induction s as [|c s IH]; cbn [forallb existsb]; [reflexivity|].
+  intros H. apply andb_prop in H. destruct H as [Hc Hs]. rewrite (IH Hs), orb_false_r.
+  destruct (N.eqb_spec q c) as [<-|]; [|reflexivity]. exfalso.
+  unfold is_char_except in Hc. cbn [eval] in Hc. apply andb_prop in Hc. destruct Hc as [_ Hc].
+  apply negb_true_iff in Hc. assert (existsb (fun x => (x <=? q) && (q <? x + 1)) ex = true) as E.
+  { apply existsb_exists. exists q. split; [exact Hin|]. rewrite N.leb_refl. cbn. apply N.ltb_lt. lia. }
+  congruence.
+Qed.
+
+Lemma piece_no_quote tbl x q v : q = 34 \/ q = 39 -> avalue_wf tbl x q v -> existsb (N.eqb q) (d_avalue v) = false.
+Proof.
+  intros Hq. destruct v as [t num r|e|s]; cbn [avalue_wf d_avalue].
+  - intros [Hr _]. unfold d_charref. destruct r; cbn [reference_ok] in Hr; destruct Hr as [_ Hd];
+      (apply existsb_app_false; [destruct Hq as [-> | ->]; reflexivity|];
+       apply existsb_app_false; [|destruct Hq as [-> | ->]; reflexivity];
+       eapply digits_no_quote; [|exact Hd]; destruct Hq as [-> | ->]; reflexivity).
+  - intros [Hn _]. unfold d_entref. change (38 :: en_name e ++ [59]) with ([38] ++ en_name e ++ [59]).
+    apply existsb_app_false; [destruct Hq as [-> | ->]; reflexivity|].
+    apply existsb_app_false; [apply name_ok_no_quote; assumption|destruct Hq as [-> | ->]; reflexivity].
+  - intros [_ Hs]. eapply except_no_char; [|exact Hs]. cbn. tauto.
+Qed.
+
+Lemma values_no_quote tbl x l q : q = 34 \/ q = 39 -> Forall (avalue_wf tbl x q) l -> existsb (N.eqb q) (d_avalues l) = false.
+Proof.
+  intros Hq. induction 1 as [|v l Hv _ IH]; [reflexivity|]. unfold d_avalues. cbn [flat_map].
+  apply existsb_app_false; [eapply piece_no_quote; eassumption|exact IH].
+Qed.
+
+Lemma quote_att_value_escape tbl x l : Forall (avalue_wf tbl x (quote_of l)) l ->
+  quote_att_value (d_avalues l) = escape (d_avalues l).
+Proof.
+  intros H. unfold quote_att_value. destruct (existsb (N.eqb 34) (d_avalues l)) eqn:E; [|reflexivity].
+  assert (quote_of l = 39) as Hq by (unfold quote_of; rewrite E; reflexivity).
+  rewrite Hq in H. rewrite (values_no_quote tbl x l 39 (or_intror eq_refl) H). reflexivity.
+Qed.
+
 Theorem att_value_rt tbl x (l : list avalue) (r : str) : values_wf tbl x l ->
-  yields (NT nt_att_value) (escape (d_avalues l) ++ r) (VList (map VAttValue (map un_avalue l))) r
+  yields (NT nt_att_value) (quote_att_value (d_avalues l) ++ r) (VList (map VAttValue (map un_avalue l))) r
   /\ build_avalues tbl x (map un_avalue l) = IOk l.
 Proof.
   intros [Hadj Hall]. split; [|eapply build_avalues_un; exact Hall].
+  rewrite (quote_att_value_escape tbl x l Hall).
   rewrite escape_quote. cbn [app]. rewrite <- app_assoc. cbn [app]. rewrite <- d_av_un.
   apply yields_att_value; [apply quote_of_cases|]. eapply av_ok_un; eassumption.
 Qed.
@@ -116,25 +173,25 @@ Definition un_attr_name (a : attr) : att_name :=
   end.
 
 (** what the printer needs to know about an attribute name: `xmlns`, `xmlns:NCName`, or a QName
-    whose text the [ns_att_name] alternative of [attribute] does not start to match *)
+    (which may start with the letters xmlns: since 7bb463b the [attribute] production tries
+    [ns_att_name = att_value] first and falls back to [qname = att_value]) *)
 Definition attr_name_wf (a : attr) : Prop :=
   match xa_prefix a with
-  | Some p => if str_eqb p s_xmlns then ncname_ok (xa_local a)
-              else ncname_ok p /\ ncname_ok (xa_local a) /\ forall rest, prefix s_xmlns (p ++ 58 :: rest) = None
-  | None => if str_eqb (xa_local a) s_xmlns then True
-            else ncname_ok (xa_local a) /\ forall rest, prefix s_xmlns (xa_local a ++ 61 :: rest) = None
+  | Some p => if str_eqb p s_xmlns then ncname_ok (xa_local a) else ncname_ok p /\ ncname_ok (xa_local a)
+  | None => if str_eqb (xa_local a) s_xmlns then True else ncname_ok (xa_local a)
   end.
 
-Lemma attribute_name_un a : attr_name_wf a -> attribute_name (un_attr_name a) = (xa_local a, xa_prefix a).
+Lemma attribute_name_un a : attribute_name (un_attr_name a) = (xa_local a, xa_prefix a).
 Proof.
-  unfold attr_name_wf, un_attr_name. destruct (xa_prefix a) as [p|].
+  unfold un_attr_name. destruct (xa_prefix a) as [p|].
   - destruct (str_eqb p s_xmlns) eqn:E; [|reflexivity]. apply str_eqb_eq in E. subst p. reflexivity.
   - destruct (str_eqb (xa_local a) s_xmlns) eqn:E; [|reflexivity]. apply str_eqb_eq in E. rewrite E. reflexivity.
 Qed.
 
 Lemma body_attribute : body G_xml nt_attribute =
-  Map L_model_Attribute_from (Seq (Alt (NT nt_ns_att_name) (Map L_model_AttributeName_from (NT nt_qname)))
-                                  (SeqR (NT nt_eq) (NT nt_att_value))).
+  Map L_model_Attribute_from
+    (Alt (Seq (NT nt_ns_att_name) (SeqR (NT nt_eq) (NT nt_att_value)))
+         (Seq (Map L_model_AttributeName_from (NT nt_qname)) (SeqR (NT nt_eq) (NT nt_att_value)))).
 Proof. reflexivity. Qed.
 Lemma body_ns_att_name : body G_xml nt_ns_att_name =
   Alt (Map L_model_AttributeName_from (SeqR (Tag [120;109;108;110;115;58]) (NT nt_ncname)))
@@ -146,65 +203,29 @@ Proof. reflexivity. Qed.
 Lemma stops_eq_ncname : forall r : str, stops (eval (is_name_char_except [58])) (61 :: r).
 Proof. reflexivity. Qed.
 
-(** the name part of an attribute, up to the `=` *)
-Lemma attr_name_rt (a : attr) (r : str) : attr_name_wf a ->
-  yields (Alt (NT nt_ns_att_name) (Map L_model_AttributeName_from (NT nt_qname)))
-         (d_name (xa_prefix a) (xa_local a) ++ 61 :: r) (VAttName (un_attr_name a)) (61 :: r).
+(** [prefix] against a longer input *)
+Lemma prefix_none_app (a n : str) x (r : str) : prefix a n = None -> ~ In x a -> prefix a (n ++ x :: r) = None.
 Proof.
-  unfold attr_name_wf, un_attr_name. destruct (xa_prefix a) as [p|]; cbn [d_name].
-  - destruct (str_eqb p s_xmlns) eqn:E.
-    + (* xmlns:local *) apply str_eqb_eq in E. subst p. intros Hl. apply yields_alt_l. apply yields_nt.
-      rewrite body_ns_att_name. apply yields_alt_l. apply (yields_map' (VStr (xa_local a))); [reflexivity|].
-      unfold s_xmlns. cbn [app]. eapply yields_seqr; [tag|]. apply yields_str.
-      apply parses_ncname; [exact Hl|apply stops_eq_ncname].
-    + (* p:local, p <> xmlns *) intros [Hp [Hl Hx]]. rewrite <- app_assoc. cbn [app]. apply yields_alt_r.
-      * apply fails_nt. rewrite body_ns_att_name. apply fails_alt.
-        -- apply fails_map. apply fails_seqr_l. apply fails_tag.
-           apply (prefix_longer_none s_xmlns [58]). apply Hx.
-        -- apply fails_map. apply fails_tag. apply Hx.
-      * apply (yields_map' (VQName (Prefixed p (xa_local a)))); [reflexivity|].
-        exists (tree_qname (Prefixed p (xa_local a))). split; [|apply eval_tree_qname].
-        pose proof (parses_qname (Prefixed p (xa_local a)) (61 :: r)) as H. cbn [d_qname] in H.
-        rewrite <- app_assoc in H. cbn [app] in H. apply H; [split; assumption|apply stops_eq_name].
-  - destruct (str_eqb (xa_local a) s_xmlns) eqn:E.
-    + (* xmlns *) apply str_eqb_eq in E. rewrite E. intros _. apply yields_alt_l. apply yields_nt.
-      rewrite body_ns_att_name. apply yields_alt_r.
-      * apply fails_map. apply fails_seqr_l. apply fails_tag. reflexivity.
-      * apply (yields_map' (VStr s_xmlns)); [reflexivity|]. apply yields_str. apply parses_tag.
-    + intros [Hl Hx]. apply yields_alt_r.
-      * apply fails_nt. rewrite body_ns_att_name. apply fails_alt.
-        -- apply fails_map. apply fails_seqr_l. apply fails_tag.
-           apply (prefix_longer_none s_xmlns [58]). apply Hx.
-        -- apply fails_map. apply fails_tag. apply Hx.
-      * apply (yields_map' (VQName (Unprefixed (xa_local a)))); [reflexivity|].
-        exists (tree_qname (Unprefixed (xa_local a))). split; [|apply eval_tree_qname].
-        apply (parses_qname (Unprefixed (xa_local a)) (61 :: r)); [exact Hl|apply stops_eq_name].
+  revert n. induction a as [|y a IH]; intros n H Hx; cbn [prefix] in *; [discriminate|].
+  destruct n as [|z n]; cbn [app].
+  - destruct (N.eqb_spec y x) as [->|]; [exfalso; apply Hx; left; reflexivity|reflexivity].
+  - destruct (y =? z); [|reflexivity]. apply IH; [exact H|]. intros Hin. apply Hx. right. exact Hin.
 Qed.
 
-(** ** attributes *)
-Definition attr_wf (a : attr) : Prop := attr_name_wf a /\ values_wf ents ext (xa_values a).
-
-Definition un_attr (a : attr) : attribute := Attribute (un_attr_name a) (map un_avalue (xa_values a)).
-
-Lemma escape_head (v : str) : exists q t, escape v = q :: t /\ (q = 34 \/ q = 39).
-Proof. unfold escape. destruct (existsb (N.eqb 34) v); eauto. Qed.
-
-Theorem attribute_rt (a : attr) (r : str) : attr_wf a ->
-  yields (NT nt_attribute) (d_attr a ++ r) (VAttribute (un_attr a)) r /\ build_attr ents ext (un_attr a) = IOk a.
+Lemma prefix_some_app (a n t s : str) : prefix a n = Some t -> prefix a (n ++ s) = Some (t ++ s).
 Proof.
-  intros [Hn Hv]. destruct (att_value_rt ents ext (xa_values a) r Hv) as [Hy Hb]. split.
-  - apply yields_nt. rewrite body_attribute.
-    apply (yields_map' (VPair (VAttName (un_attr_name a)) (VList (map VAttValue (map un_avalue (xa_values a)))))); [apply al_attribute|].
-    unfold d_attr. rewrite <- app_assoc. cbn [app].
-    eapply yields_seq; [apply attr_name_rt; exact Hn|].
-    eapply yields_seqr; [|exact Hy].
-    apply parses_eq. destruct (escape_head (d_avalues (xa_values a))) as [q [t [-> Hq]]]. cbn [app].
-    destruct Hq as [->| ->]; reflexivity.
-  - unfold build_attr, un_attr. cbn [at_name at_value]. rewrite (attribute_name_un a Hn), Hb. destruct a; reflexivity.
+  revert n. induction a as [|y a IH]; intros n H; cbn [prefix] in *.
+  - injection H as <-. reflexivity.
+  - destruct n as [|z n]; [discriminate|]. cbn [app]. destruct (y =? z); [apply IH; exact H|discriminate].
 Qed.
 
-(** ** the attribute list of a tag *)
-Definition attr_item : pexpr := SeqR (Chars1 ws) (NT nt_attribute).
+Lemma prefix_some_eq (a n t : str) : prefix a n = Some t -> n = a ++ t.
+Proof.
+  revert n. induction a as [|y a IH]; intros n H; cbn [prefix] in *.
+  - injection H as <-. reflexivity.
+  - destruct n as [|z n]; [discriminate|]. destruct (N.eqb_spec y z) as [<-|]; [|discriminate].
+    cbn [app]. f_equal. apply IH. exact H.
+Qed.
 
 Lemma ws_cases c : eval ws c = true -> c = 32 \/ c = 9 \/ c = 13 \/ c = 10.
 Proof.
@@ -212,6 +233,96 @@ Proof.
   repeat (apply orb_prop in H; destruct H as [H|H]); try discriminate;
     apply andb_prop in H; destruct H as [H1 H2]; apply N.leb_le in H1; apply N.ltb_lt in H2; lia.
 Qed.
+
+Lemma name_except_not_ws c : eval (is_name_char_except [58]) c = true -> eval ws c = false.
+Proof.
+  intros H. destruct (eval ws c) eqn:E; [|reflexivity]. exfalso.
+  destruct (ws_cases c E) as [->|[->|[->| ->]]]; vm_compute in H; discriminate.
+Qed.
+
+(** the [ns_att_name = att_value] alternative fails on a name whose first NCName [m] is not `xmlns`
+    and is followed by ':' or '=' *)
+Lemma ns_alt_fails (m : str) d (z : str) : ncname_ok m -> m <> s_xmlns -> d = 58 \/ d = 61 ->
+  F (Seq (NT nt_ns_att_name) (SeqR (NT nt_eq) (NT nt_att_value))) (m ++ d :: z).
+Proof.
+  intros Hm Hne Hd. destruct (prefix s_xmlns m) as [t|] eqn:E.
+  - pose proof (prefix_some_eq _ _ _ E) as En. destruct t as [|c t'].
+    + rewrite app_nil_r in En. contradiction.
+    + assert (eval (is_name_char_except [58]) c = true) as Hc.
+      { subst m. unfold s_xmlns in Hm. cbn [app ncname_ok forallb] in Hm. destruct Hm as [_ Hm].
+        do 4 (apply andb_prop in Hm; destruct Hm as [_ Hm]). apply andb_prop in Hm. tauto. }
+      subst m. unfold s_xmlns. norm_app.
+      eapply fails_seq_r.
+      * apply parses_nt. rewrite body_ns_att_name. apply parses_alt_r.
+        -- apply fails_map. apply fails_seqr_l. apply fails_tag. cbn [prefix]. rewrite !N.eqb_refl.
+           destruct (N.eqb_spec 58 c) as [<-|]; [vm_compute in Hc; discriminate|reflexivity].
+        -- apply parses_map. apply parses_tag_lit. cbn [prefix]. rewrite !N.eqb_refl. reflexivity.
+      * apply fails_seqr_l. apply fails_nt. rewrite body_eq. eapply fails_seqr_r.
+        -- apply parses_chars0_nil. cbn [stops]. apply name_except_not_ws. exact Hc.
+        -- apply fails_seql_l. apply fails_tag. cbn [prefix].
+           destruct (N.eqb_spec 61 c) as [<-|]; [vm_compute in Hc; discriminate|reflexivity].
+  - assert (prefix s_xmlns (m ++ d :: z) = None) as Hn.
+    { apply prefix_none_app; [exact E|]. unfold s_xmlns. cbn [In]. destruct Hd as [-> | ->]; intuition discriminate. }
+    apply fails_seq_l. apply fails_nt. rewrite body_ns_att_name. apply fails_alt.
+    + apply fails_map. apply fails_seqr_l. apply fails_tag. apply (prefix_longer_none s_xmlns [58]). exact Hn.
+    + apply fails_map. apply fails_tag. exact Hn.
+Qed.
+
+(** ** attributes *)
+Definition attr_wf (a : attr) : Prop := attr_name_wf a /\ values_wf ents ext (xa_values a).
+
+Definition un_attr (a : attr) : attribute := Attribute (un_attr_name a) (map un_avalue (xa_values a)).
+
+Lemma quote_head (v : str) : exists q t, quote_att_value v = q :: t /\ (q = 34 \/ q = 39).
+Proof.
+  unfold quote_att_value, escape. destruct (existsb (N.eqb 34) v && existsb (N.eqb 39) v); [eauto|].
+  destruct (existsb (N.eqb 34) v); eauto.
+Qed.
+
+Theorem attribute_rt (a : attr) (r : str) : attr_wf a ->
+  yields (NT nt_attribute) (d_attr a ++ r) (VAttribute (un_attr a)) r /\ build_attr ents ext (un_attr a) = IOk a.
+Proof.
+  intros [Hn Hv]. destruct (att_value_rt ents ext (xa_values a) r Hv) as [Hy Hb]. split.
+  - apply yields_nt. rewrite body_attribute.
+    apply (yields_map' (VPair (VAttName (un_attr_name a)) (VList (map VAttValue (map un_avalue (xa_values a)))))); [apply al_attribute|].
+    assert (yields (SeqR (NT nt_eq) (NT nt_att_value)) (61 :: quote_att_value (d_avalues (xa_values a)) ++ r)
+                   (VList (map VAttValue (map un_avalue (xa_values a)))) r) as Heq.
+    { eapply yields_seqr; [|exact Hy]. apply parses_eq.
+      destruct (quote_head (d_avalues (xa_values a))) as [q [t [-> Hq]]]. cbn [app].
+      destruct Hq as [->| ->]; reflexivity. }
+    unfold d_attr. rewrite <- app_assoc. cbn [app].
+    unfold attr_name_wf, un_attr_name in *. destruct (xa_prefix a) as [p|]; cbn [d_name].
+    + destruct (str_eqb p s_xmlns) eqn:E.
+      * (* xmlns:local *) apply str_eqb_eq in E. subst p. apply yields_alt_l. eapply yields_seq; [|exact Heq].
+        apply yields_nt. rewrite body_ns_att_name. apply yields_alt_l.
+        apply (yields_map' (VStr (xa_local a))); [reflexivity|].
+        unfold s_xmlns. norm_app. eapply yields_seqr; [tag|]. apply yields_str.
+        apply parses_ncname; [exact Hn|apply stops_eq_ncname].
+      * (* p:local *) destruct Hn as [Hp Hl]. rewrite <- app_assoc. cbn [app]. apply yields_alt_r.
+        -- apply ns_alt_fails; [exact Hp| |left; reflexivity].
+           intros ->. rewrite str_eqb_refl in E. discriminate.
+        -- eapply yields_seq; [|exact Heq].
+           apply (yields_map' (VQName (Prefixed p (xa_local a)))); [reflexivity|].
+           exists (tree_qname (Prefixed p (xa_local a))). split; [|apply eval_tree_qname].
+           pose proof (parses_qname (Prefixed p (xa_local a)) (61 :: quote_att_value (d_avalues (xa_values a)) ++ r)) as H.
+           cbn [d_qname] in H. rewrite <- app_assoc in H. cbn [app] in H. apply H; [split; assumption|apply stops_eq_name].
+    + destruct (str_eqb (xa_local a) s_xmlns) eqn:E.
+      * (* xmlns *) apply str_eqb_eq in E. rewrite E. apply yields_alt_l. eapply yields_seq; [|exact Heq].
+        apply yields_nt. rewrite body_ns_att_name. apply yields_alt_r.
+        -- apply fails_map. apply fails_seqr_l. apply fails_tag. reflexivity.
+        -- apply (yields_map' (VStr s_xmlns)); [reflexivity|]. apply yields_str. apply parses_tag.
+      * apply yields_alt_r.
+        -- apply ns_alt_fails; [exact Hn| |right; reflexivity].
+           intros Heq'. rewrite Heq', str_eqb_refl in E. discriminate.
+        -- eapply yields_seq; [|exact Heq].
+           apply (yields_map' (VQName (Unprefixed (xa_local a)))); [reflexivity|].
+           exists (tree_qname (Unprefixed (xa_local a))). split; [|apply eval_tree_qname].
+           apply (parses_qname (Unprefixed (xa_local a))); [exact Hn|apply stops_eq_name].
+  - unfold build_attr, un_attr. cbn [at_name at_value]. rewrite (attribute_name_un a), Hb. destruct a; reflexivity.
+Qed.
+
+(** ** the attribute list of a tag *)
+Definition attr_item : pexpr := SeqR (Chars1 ws) (NT nt_attribute).
 
 Lemma name_start_not_ws c : eval (is_name_start_char_except [58]) c = true -> eval ws c = false.
 Proof.
@@ -231,7 +342,7 @@ Proof.
       split; [reflexivity|apply name_start_not_ws; exact Hc].
   - destruct (str_eqb (xa_local a) s_xmlns) eqn:E.
     + apply str_eqb_eq in E. rewrite E. intros _. unfold s_xmlns. cbn [app]. eexists. eexists. split; reflexivity.
-    + intros [Hl _]. destruct (ncname_head _ Hl) as [c [t [-> Hc]]]. cbn [app]. eexists. eexists.
+    + intros Hl. destruct (ncname_head _ Hl) as [c [t [-> Hc]]]. cbn [app]. eexists. eexists.
       split; [reflexivity|apply name_start_not_ws; exact Hc].
 Qed.
 
@@ -252,11 +363,11 @@ Qed.
 Lemma fails_attribute (s : str) : stops (eval (is_name_start_char_except [58])) s ->
   prefix s_xmlns s = None -> F (NT nt_attribute) s.
 Proof.
-  intros H Hx. apply fails_nt. rewrite body_attribute. apply fails_map. apply fails_seq_l. apply fails_alt.
-  - apply fails_nt. rewrite body_ns_att_name. apply fails_alt.
+  intros H Hx. apply fails_nt. rewrite body_attribute. apply fails_map. apply fails_alt.
+  - apply fails_seq_l. apply fails_nt. rewrite body_ns_att_name. apply fails_alt.
     + apply fails_map. apply fails_seqr_l. apply fails_tag. apply (prefix_longer_none s_xmlns [58]). exact Hx.
     + apply fails_map. apply fails_tag. exact Hx.
-  - apply fails_map. apply fails_qname. exact H.
+  - apply fails_seq_l. apply fails_map. apply fails_qname. exact H.
 Qed.
 
 (** the two ways a tag can go on after its attributes *)
